@@ -161,6 +161,10 @@ def oracle_pit(case) -> Result:
                 return res
             if not _finite_nonneg(res, 'pit', c, metric=name, discrete=disc):
                 return res
+            if trainable and not c.requires_grad:
+                res.bad('cost-has-no-gradient-path-to-the-masks', metric=name, discrete=disc,
+                        trainable_masks=len(trainable))
+                return res
             if trainable and c.requires_grad:
                 gs = torch.autograd.grad(c, [p for _, p in trainable], allow_unused=True,
                                          retain_graph=True)
@@ -188,6 +192,16 @@ def oracle_pit(case) -> Result:
                         if c2 - cf > 1e-5 * max(1.0, cf) and gi == 0.0:
                             res.bad('zero-gradient-although-raising-the-mask-raises-the-cost',
                                     metric=name, param=pn, index=i, cost=cf, cost_after=c2)
+                        elif name in ('params', 'ops', 'params_no_bias', 'ops_no_bias') and \
+                                c2 - cf > 2e-4 * max(1.0, cf):
+                            # these metrics are polynomials of low degree in every mask parameter:
+                            # the gradient explains the finite difference (a gradient path that
+                            # is only partly there - e.g. through the consumer but not through
+                            # the layer itself - shows up here)
+                            lin = gi * delta
+                            if abs(lin - (c2 - cf)) > 0.08 * abs(c2 - cf):
+                                res.bad('gradient-differs-from-finite-difference', metric=name,
+                                        param=pn, index=i, predicted=lin, observed=c2 - cf)
                 # discrete cost: pushing a mask element across the binarisation threshold raises
                 # the metric => the straight-through gradient at the current point is non-zero
                 if disc:
